@@ -807,6 +807,10 @@ INHERIT = {
                                                {'rounds': 2, 'fit': ('fit', 3)}),
     'method_through_subclass_then_base': ("t.FineTuner.fit.epochs = 3\nt.Trainer.lr = 1\nt.consume.source = @t.FineTuner()\n",
                                           {'rounds': None, 'fit': ('fit', 3)}),
+    'base_referenced_method_through_subclass': ("t.consume.source = @t.Trainer()\nt.FineTuner.fit.epochs = 3\n",
+                                                {'rounds': 'n/a', 'fit': ('fit', 3)}),
+    'base_referenced_method_through_subclass_then_base': ("t.consume.source = @t.Trainer()\nt.FineTuner.fit.epochs = 7\nt.Trainer.fit.epochs = 3\n",
+                                                          {'rounds': 'n/a', 'fit': ('fit', 3)}),
     'base_and_subclass_instances': ("t.Trainer.fit.epochs = 3\nt.FineTuner.rounds = 2\nt.consume.source = [@t.FineTuner(), @t.Trainer()]\n",
                                     {'rounds': 2, 'fit': ('fit', 3), 'second_fit': ('fit', 3)}),
 }
@@ -825,7 +829,7 @@ def run_inherit(case, res):
   def observe():
     v = gin.get_configurable(m.consume)()
     inst = v[0] if isinstance(v, list) else v
-    out = {'rounds': inst.rounds, 'fit': inst.fit()}
+    out = {'rounds': getattr(inst, 'rounds', 'n/a'), 'fit': inst.fit()}
     if isinstance(v, list):
       out['second_fit'] = v[1].fit()
     return out
